@@ -146,7 +146,7 @@ impl<'a> GeneratorState<'a> {
                     .syntax_error("Unexpected expression type", pos));
             }
             ExprType::Absolute(variable, eight_bits, off) => {
-                let v = self.compiler_state.get_variable(variable);
+                let v = self.compiler_state.get_variable_or_error(variable, pos)?;
                 signed = v.signed;
                 let offset = if v.memory == VariableMemory::Superchip {
                     match mnemonic {
